@@ -7,7 +7,7 @@ Driver glue for the `OSK` lines: `Model/OsuSkill.lean` at the `Float` instance.
   OSK <group> <limit> … see below; header = <clock_rate,scaling_factor,radius,time_preempt,time_fade_in,time_fade_in_hidden,hit_window>
       <obj;obj;…>   obj = kind:start:px:py:sx:sy:lex:ley:ltd:ltt:repeats:hasTail:tx:ty   (f64 bit patterns; f32
                     values as the f64 they convert to exactly)
-  group = obj | aim | fl | spd
+  group = obj | aim | fl | spd | rhy
 Response: one `key=value` token per number (`b:<bits>`, `none` for a missing angle), keys `<field><idx>`.
 -/
 namespace Rosu.PerfCalc
@@ -45,8 +45,20 @@ def handleOSK (args : List String) : String :=
            s!"h{i}={showF (flashlightEvaluate ds d true flSf preempt fadeInHd)}"]
         else if group == "spd" then
           [s!"s{i}={showF (speedEvaluate ds d hitWindow false)}", s!"p{i}={showF (speedEvaluate ds d hitWindow true)}"]
+        else if group == "rhy" then
+          [s!"r{i}={showF (rhythmEvaluate ds d hitWindow)}"]
         else ["bad-group"]
-      " ".intercalate (s!"n={shown.length}" :: toks)
+      -- coverage annotation for the rhythm lines: how many island entries / repeated islands the loops saw
+      let ann : List String :=
+        if group == "rhy" then
+          let finals := shown.filterMap fun d => (rhythmEvaluateFull ds d hitWindow).2
+          let islands := (finals.map fun st => st.counts.length).foldl (· + ·) 0
+          let repeated := (finals.map fun st => (st.counts.filter fun e => e.2 > 1).length).foldl (· + ·) 0
+          let under := finals.any fun st => st.underflow || st.broke
+          let bucket (n : Nat) : String := if n = 0 then "0" else if n < 10 then "1-9" else if n < 100 then "10-99" else "100+"
+          [s!"~islands={bucket islands}", s!"~repeated={bucket repeated}", s!"~underflow-or-break={if under then 1 else 0}"]
+        else []
+      " ".intercalate (s!"n={shown.length}" :: toks ++ ann)
     | _ => "bad-osk-header"
   | _ => "bad-osk"
 
